@@ -218,7 +218,12 @@ def main(ctx):
             for layout in T.LAYOUTS[1:]:
                 for wsel in WRITERS:
                     lunits.append((descr, nrows, layout, wsel))
-    ctx.lattice("input-layouts", lunits, one_layout, bounds=dict(layouts=T.LAYOUTS[1:], rows=[1, 2, 5]))
+        # the table handed over as a 2-d / 3-d array of records (one row per record, C order)
+        for nrows in (4, 6, 3):
+            for layout in T.LAYOUTS_ND:
+                for wsel in WRITERS:
+                    lunits.append((descr, nrows, layout, wsel))
+    ctx.lattice("input-layouts", lunits, one_layout, bounds=dict(layouts=T.LAYOUTS[1:] + T.LAYOUTS_ND, rows=[1, 2, 5, 4, 6, 3]))
 
     # ------------------------- (a3) hostile bytes at the start / end of the data section
     PATTERNS = [b"\n", b"\n\n\n\n", b"\nEND\n\n", b"END", b" ", b"\r\n", b"SIZE = 1\n", b"\x00", b"\xff", b"}\n"]
